@@ -42,6 +42,22 @@ def main():
     check(i.table == "t" and i.columns == ["a", "b"], "sql insert")
     sts = parse_sql("CREATE TABLE t (a integer NOT NULL PRIMARY KEY, b text UNIQUE, FOREIGN KEY (b) REFERENCES u (c)); COMMIT;")
     check(sts[0].pk == ["a"] and sts[0].uniques == [["b"]] and sts[1].kind == "txn", "sql ddl")
+    # SQL normal forms
+    from .sqlmodel import conjuncts, expr_str
+    q = parse_one("SELECT a AS x, b FROM t WHERE NOT (a IS NULL) AND NOT (b > ?) AND c IN ('k') ORDER BY 2 DESC, x")
+    check([expr_str(c) for c in conjuncts(q.where)] == ["(a ISNOT NULL)", "(b <= ?1)", "(c = 'k')"], "sql conjunct normal form")
+    check([expr_str(e) for e, _ in q.order_by] == ["b", "a"], "sql ORDER BY ordinal / alias")
+    q = parse_one("SELECT (SELECT min(z) FROM w), (SELECT max(z) FROM w)")
+    check([x.table for x in q.sources] == ["w"] and [expr_str(e) for e, _ in q.columns] == ["MIN(z)", "MAX(z)"], "sql scalar sub-queries merged")
+    q = parse_one("SELECT i.epoch, wl.z FROM (SELECT gt.epoch FROM grid_time AS gt WHERE gt.d = ?) AS i JOIN water_level AS wl USING (epoch) ORDER BY 1")
+    check([(x.table, x.alias) for x in q.sources] == [("grid_time", "i"), ("water_level", "wl")] and expr_str(q.where) == "(i.d = ?1)", "sql sub-select flattened")
+    q = parse_one("WITH c (a, b) AS (SELECT x, y FROM t JOIN u ON t.k = u.k) SELECT c.b FROM s, c WHERE s.id = c.a")
+    check([x.table for x in q.sources] == ["s", "t", "u"] and expr_str(q.columns[0][0]) == "y", "sql join CTE flattened")
+    q = parse_one("SELECT a FROM (SELECT DISTINCT a FROM t) AS d")
+    check(q.sources[0].subq is not None, "sql DISTINCT sub-select kept")
+    q = parse_one("WITH p AS (SELECT k FROM z WHERE k = :k) INSERT INTO r (k, v) SELECT k, :v FROM p RETURNING k")
+    check(q.kind == "insert" and q.first_keyword == "WITH" and q.conflict is None, "sql WITH-prefixed insert")
+    check(parse_one("INSERT OR IGNORE INTO t (a) VALUES (?)").conflict == "IGNORE", "sql conflict clause")
     fn = ast.parse("def f(x):\n    if x:\n        raise ValueError\n    y = 1\n    for i in x:\n        y += i\n    return y\n")
     for n in ast.walk(fn):
         for c in ast.iter_child_nodes(n):
